@@ -112,9 +112,6 @@ Properties/C04.vos Properties/C04.vok Properties/C04.required_vos: Properties/C0
 Proofs/StaticProofs.vo Proofs/StaticProofs.glob Proofs/StaticProofs.v.beautified Proofs/StaticProofs.required_vo: Proofs/StaticProofs.v Compiler/Emit.vo Proofs/Utf8Proofs.vo Proofs/QuoteProofs.vo Proofs/EscapeProofs.vo Proofs/ChunkProofs.vo Proofs/EmitProofs.vo Proofs/PassThroughProofs.vo
 Proofs/StaticProofs.vio: Proofs/StaticProofs.v Compiler/Emit.vio Proofs/Utf8Proofs.vio Proofs/QuoteProofs.vio Proofs/EscapeProofs.vio Proofs/ChunkProofs.vio Proofs/EmitProofs.vio Proofs/PassThroughProofs.vio
 Proofs/StaticProofs.vos Proofs/StaticProofs.vok Proofs/StaticProofs.required_vos: Proofs/StaticProofs.v Compiler/Emit.vos Proofs/Utf8Proofs.vos Proofs/QuoteProofs.vos Proofs/EscapeProofs.vos Proofs/ChunkProofs.vos Proofs/EmitProofs.vos Proofs/PassThroughProofs.vos
-Properties/C05.vo Properties/C05.glob Properties/C05.v.beautified Properties/C05.required_vo: Properties/C05.v Runtime/Children.vo Proofs/RuntimeProofs.vo
-Properties/C05.vio: Properties/C05.v Runtime/Children.vio Proofs/RuntimeProofs.vio
-Properties/C05.vos Properties/C05.vok Properties/C05.required_vos: Properties/C05.v Runtime/Children.vos Proofs/RuntimeProofs.vos
 Properties/C12.vo Properties/C12.glob Properties/C12.v.beautified Properties/C12.required_vo: Properties/C12.v Compiler/Compile.vo Runtime/Render.vo Proofs/RenderProofs.vo
 Properties/C12.vio: Properties/C12.v Compiler/Compile.vio Runtime/Render.vio Proofs/RenderProofs.vio
 Properties/C12.vos Properties/C12.vok Properties/C12.required_vos: Properties/C12.v Compiler/Compile.vos Runtime/Render.vos Proofs/RenderProofs.vos
@@ -169,6 +166,9 @@ Proofs/RenderProofs.vos Proofs/RenderProofs.vok Proofs/RenderProofs.required_vos
 Proofs/RuntimeProofs.vo Proofs/RuntimeProofs.glob Proofs/RuntimeProofs.v.beautified Proofs/RuntimeProofs.required_vo: Proofs/RuntimeProofs.v Runtime/Children.vo Runtime/Pool.vo
 Proofs/RuntimeProofs.vio: Proofs/RuntimeProofs.v Runtime/Children.vio Runtime/Pool.vio
 Proofs/RuntimeProofs.vos Proofs/RuntimeProofs.vok Proofs/RuntimeProofs.required_vos: Proofs/RuntimeProofs.v Runtime/Children.vos Runtime/Pool.vos
+Properties/C05.vo Properties/C05.glob Properties/C05.v.beautified Properties/C05.required_vo: Properties/C05.v Runtime/Children.vo Proofs/RuntimeProofs.vo Compiler/Emit.vo Proofs/SegProofs.vo
+Properties/C05.vio: Properties/C05.v Runtime/Children.vio Proofs/RuntimeProofs.vio Compiler/Emit.vio Proofs/SegProofs.vio
+Properties/C05.vos Properties/C05.vok Properties/C05.required_vos: Properties/C05.v Runtime/Children.vos Proofs/RuntimeProofs.vos Compiler/Emit.vos Proofs/SegProofs.vos
 Proofs/NukeProofs.vo Proofs/NukeProofs.glob Proofs/NukeProofs.v.beautified Proofs/NukeProofs.required_vo: Proofs/NukeProofs.v Base/Regex.vo
 Proofs/NukeProofs.vio: Proofs/NukeProofs.v Base/Regex.vio
 Proofs/NukeProofs.vos Proofs/NukeProofs.vok Proofs/NukeProofs.required_vos: Proofs/NukeProofs.v Base/Regex.vos
